@@ -60,10 +60,11 @@ def sweeps(tier):
            ('rsp:21', {'records': [{'file': 1, 'record': 2, 'data': '0102' * 100}]}),
            ('req:8', {'sub': 0, 'data': [(i * 9) & 0xFFFF for i in range(60)]}),
            ('rsp:8', {'sub': 21, 'data': [3] + [(i * 9) & 0xFFFF for i in range(54)]})]
-    for total in (60, 123, 124, 200, 240):
+    # object areas up to the exact fit: 246 bytes of objects make a 253-byte PDU
+    for total, piece in [(t, 60) for t in (60, 123, 124, 200, 240, 241, 242, 243, 244, 245, 246)] + [(t, 244) for t in (244, 245, 246)] + [(246, 121), (246, 80)]:
         objs, left, oid = [], total, 0
         while left > 2:
-            n = min(left - 2, 60)
+            n = min(left - 2, piece)
             objs.append([oid if oid < 7 else 0x80 + oid, ('%02x' % (0x41 + oid)) * n])
             left -= n + 2
             oid += 1
